@@ -58,7 +58,7 @@ reg("C11", "checks/C11_grammar.cpp")
 reg("C12", "checks/C12_savefile.cpp", flavour="asan")
 reg("C13", "checks/C13_order.cpp", flavour="asan")
 reg("C14", "checks/C14_params.cpp", flavour="asan")
-reg("C15", "checks/C15_undo.cpp", flavour="asan", extra=["engine/interpose_time.cpp"])
+reg("C15", "checks/C15_undo.cpp", flavour="asan", extra=["engine/interpose_time.cpp"], shards=1)
 reg("C16", "checks/C16_cmp.cpp")
 reg("C17", "checks/C17_meta.cpp", flavour="asan")
 reg("C18", "checks/C18_paths.cpp", flavour="asan")
@@ -84,9 +84,20 @@ def tree_hash():
             h.update(rel.encode()); h.update(b"\0"); h.update(f.read()); h.update(b"\0")
     return h.hexdigest()
 
-def engine_hash(extra_files):
+def engine_hash(srcs):
+    """hash of the harness sources and every /verif header they include (g++ -MM)"""
     h = hashlib.sha256()
-    for p in sorted(glob.glob(os.path.join(VERIF, "engine", "*")) + glob.glob(os.path.join(VERIF, "apps", "*")) + list(extra_files)):
+    inc = ["-I" + os.path.join(REPO, "include"), "-I" + os.path.join(REPO, "src"), "-I" + VERIF, "-I" + os.path.join(VERIF, "engine")]
+    deps = set(srcs)
+    rc, txt = run(["g++", "-std=c++17", "-MM", "-w"] + inc + list(srcs))
+    if rc == 0:
+        for tok in txt.replace("\\\n", " ").split():
+            if tok.startswith(VERIF + "/") and os.path.isfile(tok):
+                deps.add(tok)
+    else:
+        deps.update(glob.glob(os.path.join(VERIF, "engine", "*")) + glob.glob(os.path.join(VERIF, "apps", "*")))
+    deps.add(os.path.join(VERIF, "engine/tl_hook.h"))
+    for p in sorted(deps):
         if os.path.isfile(p):
             sha_file(h, p)
     return h.hexdigest()
@@ -237,10 +248,12 @@ def run_shards(exes, ck, tier, jobs, deadline, outdir, replay=None):
             tail = open(os.path.join(outdir, "shard_%s.log" % i), errors="replace").read()[-3000:]
             errors.append("shard %s exit %s\n%s" % (i, rc, tail))
             continue
+    # a process may have written further result files (bfs workers: shard_*_L<d>w<i>.json)
+    for out in sorted(glob.glob(os.path.join(outdir, "shard_*.json"))):
         try:
             results.append(json.load(open(out)))
         except Exception as ex:
-            errors.append("shard %s wrote unparsable result: %s" % (i, ex))
+            errors.append("%s: unparsable result: %s" % (os.path.basename(out), ex))
     return results, errors
 
 def aggregate(results):
@@ -270,8 +283,10 @@ def aggregate(results):
 
 RULES = {}
 def load_meta():
-    p = os.path.join(VERIF, "checks", "meta.json")
-    return json.load(open(p)) if os.path.exists(p) else {}
+    m = {}
+    for p in glob.glob(os.path.join(VERIF, "checks", "*.meta.json")):
+        m[os.path.basename(p).split(".")[0]] = json.load(open(p))
+    return m
 
 def main():
     ap = argparse.ArgumentParser()
